@@ -16,7 +16,7 @@
    out): arbitrary nesting, arbitrary index paths, all payload kinds (list, dict with/without default, string,
    vector, bytes, struct instance); statements  x[p] = e,  every x[p] = e (p with slices),  x[p] f= e  (append ++ +
    |. -. || |..),  x[p] f= [pop|remove|consume y[q]]  (a right-hand side that mutates, also the target itself: the old value
-   is read first),  [y[q] =] pop|remove|consume x[p]  (remove also by slice),  swap x[p], y[q],
+   is read first),  (x[p][k] = d) f= e  (op-assign with a default for a missing dictionary key),  [y[q] =] pop|remove|consume x[p]  (remove also by slice),  swap x[p], y[q],
    for (it <- x[p]) (simple statements)  with the cloning/draining iterator;  expressions  literal, x[p] (also
    slices), getter closure, [e..], e{k = e'}, call of a function that mutates its parameter (incl. `every`).
    Write paths of the non-`every` forms contain no slice (that is todo!() in set_index, finding F11).
@@ -112,4 +112,22 @@ Example C01_nonvacuous :
      VList [VInt 7; VList [VInt 9; VInt 0; VInt 0]; VInt 0; row]] /\
   map (abs_val 6 (mheap (final_cow (init_state 5) ops))) (roots (final_cow (init_state 5) ops))
     = map Some (final_value (repeat VNull 5) ops).
+Proof. repeat split; reflexivity. Qed.
+
+(* non-vacuity of the with-default op-assign `(x[i][k] = d) f= e`: existing key (old value used), missing key (default used),
+   the alias v2 keeps the old rows; the last statement raises (index 2 does not exist) and changes nothing *)
+Example C01_nonvacuous_with_default :
+  let d7 := VSeq KDict [(KI 2%Z, VList [VInt 7])] None in
+  let ops := [Simple (SAssign 1 [] (ELit (VList [d7; VSeq KDict [] None])));
+              Simple (SAssign 2 [] (ERead 1 []));
+              Simple (SOpDef 1 [PI 0; PI 2] (VList []) BAppend (ELit (VInt 3)));
+              Simple (SOpDef 1 [PI 1; PI 0] (VInt 100) BPlus (ELit (VInt 5)));
+              Simple (SOpDef 1 [PI 2; PI 0] (VInt 100) BPlus (ELit (VInt 5)))] in
+  forallb ffrag ops = true /\
+  map snd (run_value (repeat VNull 3) ops) = [true; true; true; true; false] /\
+  final_value (repeat VNull 3) ops =
+    [VNull; VList [VSeq KDict [(KI 2%Z, VList [VInt 7; VInt 3])] None; VSeq KDict [(KI 0%Z, VInt 105)] None];
+     VList [d7; VSeq KDict [] None]] /\
+  map (abs_val 6 (mheap (final_cow (init_state 3) ops))) (roots (final_cow (init_state 3) ops))
+    = map Some (final_value (repeat VNull 3) ops).
 Proof. repeat split; reflexivity. Qed.
